@@ -19,6 +19,18 @@ theorem bit_cases (i : Nat) : i = 0 ∨ i = 1 ∨ i = 2 ∨ i = 3 ∨ i = 4 ∨ 
 theorem testBit_high {w i : Nat} (hw : w < 2 ^ 16) (hi : 16 ≤ i) : w.testBit i = false :=
   Nat.testBit_lt_two_pow (Nat.lt_of_lt_of_le hw (Nat.pow_le_pow_right (by decide) hi))
 
+/- closes a goal `testBit lhs i = testBit rhs i` about 16-bit words after the
+bit lemmas have been pushed inside; `hi` is `16 ≤ i → w.testBit i = false`. -/
+set_option hygiene false in
+macro "bits16_cases" i:ident hi:ident : tactic => `(tactic|
+  (rcases bit_cases $i with rfl | rfl | rfl | rfl | rfl | rfl | rfl | rfl | rfl | rfl | rfl | rfl | rfl | rfl | rfl | rfl | h16
+   all_goals first
+     | (simp [Nat.testBit_mod_two_pow, Nat.testBit_shiftRight] <;> decide)
+     | (have hh := $hi h16
+        simp [hh, show ¬(15 = $i) by omega, show ¬(10 = $i) by omega, show ¬($i - 11 < 4) by omega,
+          show ¬(9 = $i) by omega, show ¬(8 = $i) by omega, show ¬(7 = $i) by omega, show ¬(6 = $i) by omega,
+          show ¬(5 = $i) by omega, show ¬(4 = $i) by omega, show ¬ ($i < 16) by omega, show ¬ ($i < 4) by omega])))
+
 /-- `ApplyReply` on any 16-bit word is the header record with QR set, the
 opcode replaced, RD/CD replaced and AA cleared — every other field kept. -/
 theorem applyReply_eq_encode (w op : Nat) (rd cd : Bool) (hw : w < 2 ^ 16) :
@@ -31,26 +43,7 @@ theorem applyReply_eq_encode (w op : Nat) (rd cd : Bool) (hw : w < 2 ^ 16) :
   cases rd <;> cases cd <;>
   simp only [Nat.testBit_or, Nat.testBit_and, Nat.testBit_xor, Nat.testBit_two_pow, Nat.testBit_two_pow_sub_one,
     Nat.testBit_shiftLeft, Nat.testBit_mod_two_pow, testBit_bit, if_true, if_false, Bool.false_eq_true] <;>
-  (rcases bit_cases i with rfl | rfl | rfl | rfl | rfl | rfl | rfl | rfl | rfl | rfl | rfl | rfl | rfl | rfl | rfl | rfl | h16
-   all_goals first
-     | (simp [Nat.testBit_mod_two_pow, Nat.testBit_shiftRight] <;> decide)
-     | (have := hi h16
-        simp [this, show ¬(15 = i) by omega, show ¬(10 = i) by omega, show ¬(i - 11 < 4) by omega,
-          show ¬(9 = i) by omega, show ¬(8 = i) by omega, show ¬(7 = i) by omega, show ¬(6 = i) by omega,
-          show ¬(5 = i) by omega, show ¬(4 = i) by omega, show ¬ (i < 16) by omega, show ¬ (i < 4) by omega]))
-
-
-/- closes a goal `testBit lhs i = testBit rhs i` about 16-bit words after the
-bit lemmas have been pushed inside; `hi` is `16 ≤ i → w.testBit i = false`. -/
-set_option hygiene false in
-macro "bits16_cases" i:ident hi:ident : tactic => `(tactic|
-  (rcases bit_cases $i with rfl | rfl | rfl | rfl | rfl | rfl | rfl | rfl | rfl | rfl | rfl | rfl | rfl | rfl | rfl | rfl | h16
-   all_goals first
-     | (simp [Nat.testBit_mod_two_pow, Nat.testBit_shiftRight] <;> decide)
-     | (have hh := $hi h16
-        simp [hh, show ¬(15 = $i) by omega, show ¬(10 = $i) by omega, show ¬($i - 11 < 4) by omega,
-          show ¬(9 = $i) by omega, show ¬(8 = $i) by omega, show ¬(7 = $i) by omega, show ¬(6 = $i) by omega,
-          show ¬(5 = $i) by omega, show ¬(4 = $i) by omega, show ¬ ($i < 16) by omega, show ¬ ($i < 4) by omega])))
+  bits16_cases i hi
 
 theorem encode_decode (w : Nat) (hw : w < 2 ^ 16) : (Hdr.decode w).encode = w := by
   apply Nat.eq_of_testBit_eq
@@ -92,7 +85,7 @@ theorem setRcode_eq_encode (w rc : Nat) (hw : w < 2 ^ 16) :
   intro i
   have hi := @testBit_high w i hw
   simp only [setRcode, andNot, u16max, Hdr.encode, Hdr.decode, Nat.testBit_or, Nat.testBit_and, Nat.testBit_xor,
-    Nat.testBit_two_pow, Nat.testBit_two_pow_sub_one, Nat.testBit_shiftLeft, Nat.testBit_mod_two_pow, testBit_bit]
+    Nat.testBit_two_pow_sub_one, Nat.testBit_shiftLeft, Nat.testBit_mod_two_pow, testBit_bit]
   bits16_cases i hi
 
 
@@ -356,7 +349,7 @@ theorem and_two_pow_ne_zero_iff (x k : Nat) : x &&& 2 ^ k ≠ 0 ↔ x.testBit k 
       · simp [hki]
   · intro ht h0
     have : (x &&& 2 ^ k).testBit k = true := by
-      simp [Nat.testBit_and, Nat.testBit_two_pow, ht]
+      simp [Nat.testBit_and, ht]
     rw [h0] at this
     simp at this
 
